@@ -194,6 +194,30 @@ reg('C16', 'exploration',
     'Trusted: vf/ref/c16ref.py flag table and probes; the installed compilers.',
     'DESIGN.md §2 C16')
 
+reg('C13', 'exploration',
+    'byte comparison of the files written by repeated real configure / regenerate runs of the '
+    'same project at the same absolute paths under varied PYTHONHASHSEED, cwd, command spelling '
+    'and unrelated environment',
+    'Generated projects touching every set/dict-keeping builtin are configured 6-10 times into a '
+    'fresh build dir; Makefile / build.ninja / compile_commands.json / *.pc must be byte-identical '
+    'to the reference run, auxiliary files equal as sets / JSON; a differing run is re-run to '
+    'attribute the factor (hash seed, invocation, environment). Positive control: .bfg_find_deps '
+    'order does differ between seeds.',
+    'Trusted: os.listdir order cannot be varied here (stated); msbuild out of scope (uuid4).',
+    'DESIGN.md §2 C13')
+reg('C17', 'exploration',
+    'real pkg-config (pkgconf 1.8.1) reading the generated installed and -uninstalled .pc files, '
+    'real gcc building and running a consumer with exactly those flags, --exists over a version '
+    'grid compared with an independent tuple comparator; every hostile value first calibrated '
+    'with a hand-written .pc',
+    'Generated package descriptions (hostile tokens in options / include dirs / link options / '
+    'paths, library shapes with transitive static deps, requirement lists with random specifier '
+    'sets, auto_fill on/off); flags must denote exactly the declared dirs/options/libs, the '
+    'consumer must build and run (plain and --static), accepted versions must be exactly those '
+    'the original specifiers accept, unsatisfiable sets must fail configure.',
+    'Trusted: pkgconf as the reader; vf/ref/pcref.py comparator and reference .pc writer.',
+    'DESIGN.md §2 C17')
+
 NOT_APPLICABLE = {}
 
 ALL = ['C%02d' % i for i in range(1, 21)]
